@@ -345,18 +345,39 @@ func cpuTime() time.Duration {
 }
 
 // Watch runs f in a goroutine and waits for it. If it has not returned after limit
-// (a very generous wall budget for something that normally takes milliseconds) the case is
+// (a very generous budget for something that normally takes milliseconds) the case is
 // classified "spin" (the process burnt CPU for most of that time) or "blocked" and returned
 // as hung; f's goroutine is leaked, so callers normally record the case and exit the process.
+//
+// The budget is measured in time this process was actually scheduled, not in wall time: a canary
+// goroutine ticks every 10 ms and the limit is counted in canary ticks, so a machine that is
+// overloaded (or a stopped process) stretches the wait instead of producing a false "hang".
 func Watch(limit time.Duration, f func()) (hung bool, kind string) {
 	done := make(chan struct{})
 	c0 := cpuTime()
 	t0 := time.Now()
 	go func() { defer close(done); f() }()
+	tick := time.NewTicker(10 * time.Millisecond)
+	defer tick.Stop()
+	need := int(limit / (10 * time.Millisecond))
+	ticks := 0
+	last := time.Now()
+	for ticks < need {
+		select {
+		case <-done:
+			return false, ""
+		case now := <-tick.C:
+			// a tick that arrives late (the process did not run) counts as one tick only
+			_ = now
+			ticks++
+			last = time.Now()
+		}
+	}
+	_ = last
 	select {
 	case <-done:
 		return false, ""
-	case <-time.After(limit):
+	default:
 	}
 	cpu := cpuTime() - c0
 	wall := time.Since(t0)
